@@ -73,7 +73,8 @@ type scen struct {
 	lastOK map[string]*replayRec
 
 	accepted, rejectedCorrupt int
-	unclassified              int
+	late                      bool // new contracts are confirmed by a later block only
+	second, cutRefused        int
 	fails                     []failure
 }
 
@@ -208,9 +209,18 @@ func (sc *scen) prices(mut string) (proto4.HostPrices, string) {
 		signed := body
 		switch sc.r.Intn(3) {
 		case 0:
-			hp.StoragePrice = types.ZeroCurrency
-			hp.FreeSectorPrice = types.ZeroCurrency
-			hp.EgressPrice = types.ZeroCurrency
+			// cheaper than signed (a change under every settings variant, zero prices included)
+			one := types.NewCurrency64(1)
+			for _, c := range []*types.Currency{&hp.StoragePrice, &hp.FreeSectorPrice, &hp.EgressPrice} {
+				if c.IsZero() {
+					*c = one
+				} else {
+					*c = c.Div64(2)
+					if c.IsZero() {
+						*c = types.NewCurrency64(2)
+					}
+				}
+			}
 		case 1:
 			hp.ValidUntil = hp.ValidUntil.Add(time.Hour)
 			vu += 1000
